@@ -1,5 +1,23 @@
-"""Loop treatment for symbolic trip counts (DESIGN 2.7): L2 invariants, L3 independent-iteration schema."""
-from .values import Unsupported
+"""Loop treatment for symbolic trip counts (DESIGN 2.7).
+
+L1  exact unrolling            -- symex.st_For when the iterable has a concrete length
+L2  inductive invariant        -- class Invariant: havoc, assume inv, one symbolic iteration, assert inv, cut;
+                                  continuation path assumes inv at exit
+L3  independent iterations     -- class IndependentWrites: the body is executed ONCE for a generic index k
+                                  (0 <= k < n); every store into an object that outlives the loop becomes a
+                                  *family* store  {region(k) := value(k) | 0 <= k < n}.  The sidecar supplies a
+                                  witness  w(position) ; the engine proves   position in region(k)  =>  k = w(position)
+                                  (so regions of distinct iterations are disjoint, the final content does not depend
+                                  on the ORDER of iterations -- which is also the schedule independence needed for the
+                                  thread-pool fan-outs -- and the content at a position is value(w(position))).
+                                  Branching on the loop index inside the body is refused (Unsupported): facts about the
+                                  generic k must stay universally valid.
+"""
+import z3
+
+from . import values as V
+from .values import (Unsupported, PyRaise, SInt, SBool, SFloat, STok, SRange, is_sym, ops_binop, ops_cmp, mk_int,
+                     mk_bool, zint, zbool, cur, And, Or, Not, Ite)
 
 
 def install(interp, registry):
@@ -10,4 +28,361 @@ def install(interp, registry):
                     fkey, o = ordinal
                 else:
                     fkey, o = con.key, ordinal
+                if not fkey.startswith('seismic_zfp/'):
+                    fkey = 'seismic_zfp/' + fkey
                 interp.loop_annots[(fkey, o)] = annot
+
+
+# ---------------------------------------------------------------------------------------------
+# substitution of loop variables in symbolic values
+
+def subst_z(z, pairs):
+    if not pairs:
+        return z
+    return z3.substitute(z, *pairs)
+
+
+def subst(v, pairs):
+    """substitute z3 constants (loop indices) in a symbolic value"""
+    if not pairs:
+        return v
+    if isinstance(v, SInt):
+        return mk_int(subst_z(v.z, pairs))
+    if isinstance(v, SBool):
+        return mk_bool(subst_z(v.z, pairs))
+    if isinstance(v, SFloat):
+        return V.mk_float(subst_z(v.z, pairs))
+    if isinstance(v, STok):
+        return STok(z3.simplify(subst_z(v.z, pairs)))
+    if isinstance(v, tuple):
+        return tuple(subst(x, pairs) for x in v)
+    if isinstance(v, list):
+        return [subst(x, pairs) for x in v]
+    from . import bytesmodel as BM
+    if isinstance(v, BM.Tok):
+        return BM.Tok(subst(v.kind, pairs) if is_sym(v.kind) else v.kind, subst(v.off, pairs) if is_sym(v.off) else v.off)
+    return v
+
+
+def fresh_consts_in(z, counter_before):
+    """names of z3 constants in z that were created after `counter_before` (engine-fresh symbols name!N)"""
+    out = []
+    seen = set()
+    stack = [z]
+    while stack:
+        t = stack.pop()
+        if t.get_id() in seen:
+            continue
+        seen.add(t.get_id())
+        if z3.is_const(t) and t.decl().kind() == z3.Z3_OP_UNINTERPRETED:
+            nm = t.decl().name()
+            if '!' in nm:
+                try:
+                    if int(nm.rsplit('!', 1)[1]) > counter_before:
+                        out.append(nm)
+                except ValueError:
+                    pass
+        stack.extend(t.children())
+    return out
+
+
+def check_closed(v, counter_before, allowed=()):
+    """a family value must be a closed form in (loop indices, position): symbols introduced while evaluating it
+    (division witnesses etc.) would stay tied to the generic index after substitution"""
+    zs = []
+    if isinstance(v, (SInt, SBool, SFloat, STok)):
+        zs = [v.z]
+    else:
+        from . import bytesmodel as BM
+        if isinstance(v, BM.Tok):
+            zs = [zint(v.kind), zint(v.off)]
+    allowed = set(allowed)
+    for z in zs:
+        bad = [n for n in fresh_consts_in(z, counter_before) if n not in allowed]
+        if bad:
+            raise Unsupported(f'value stored by an independent-iterations loop is not a closed form (fresh symbols {bad[:3]})')
+
+
+def mentions(z, consts):
+    """does z3 term z mention any of the z3 constants?"""
+    names = {c.decl().name() for c in consts}
+    seen = set()
+    stack = [z]
+    while stack:
+        t = stack.pop()
+        if t.get_id() in seen:
+            continue
+        seen.add(t.get_id())
+        if z3.is_const(t) and t.decl().kind() == z3.Z3_OP_UNINTERPRETED and t.decl().name() in names:
+            return True
+        stack.extend(t.children())
+    return False
+
+
+class LoopVar:
+    def __init__(self, z, n, label):
+        self.z = z          # z3 Int constant: the generic ordinal 0 <= z < n
+        self.n = n          # trip count (value)
+        self.label = label
+
+
+class Family:
+    """one active L3 loop nest level (one generic index, or several when a flattened loop is decomposed)"""
+    def __init__(self, annot, vars_, stamp, env, fname):
+        self.annot = annot
+        self.vars = list(vars_)
+        self.var = self.vars[0]
+        self.stamp = stamp
+        self.env = env
+        self.fname = fname
+        self.raised = None      # exception class raised by the generic iteration (fault modes)
+
+
+def active_vars():
+    c = cur()
+    out = []
+    for f in getattr(c, 'family', []):
+        out += f.vars
+    return out
+
+
+def level_vars(levels):
+    out = []
+    for f in levels:
+        out += f.vars
+    return out
+
+
+def active_family():
+    c = cur()
+    fam = getattr(c, 'family', [])
+    return fam[-1] if fam else None
+
+
+def is_outer(obj):
+    """object allocated before the outermost active L3 loop?"""
+    c = cur()
+    fam = getattr(c, 'family', [])
+    if not fam:
+        return False
+    return getattr(obj, 'born', 0) < fam[0].stamp
+
+
+def active_levels():
+    return list(getattr(cur(), 'family', []))
+
+
+def witness_for(levels, pos):
+    """Evaluate the sidecar witnesses of the given loop levels at `pos` (a position / index tuple).
+    Returns list of values (one per loop var, outermost first)."""
+    out = []
+    for f in levels:
+        w = f.annot.witness
+        if w is None:
+            raise Unsupported(f'L3 loop in {f.fname} stores into an outer object but has no witness')
+        r = w(pos, f.env)
+        if isinstance(r, (tuple, list)):
+            if len(r) != len(f.vars):
+                raise Unsupported('L3 witness arity')
+            out += list(r)
+        else:
+            if len(f.vars) != 1:
+                raise Unsupported('L3 witness arity')
+            out.append(r)
+    return out
+
+
+class IndependentWrites:
+    """L3 annotation.  witness(pos, env) -> ordinal(s) of the iteration(s) of THIS level that write position pos
+    (pos: int for bytearrays, index tuple for arrays; env: the local variables of the function at loop entry
+    as a dict name -> value).  One annotation per loop statement (nested loops: one each; the innermost that
+    stores supplies a witness for every enclosing level still unwitnessed by returning a tuple)."""
+    always = False
+
+    def __init__(self, witness=None, decompose=None, always=False):
+        self.always = always            # use the schema even when the trip count is concrete (avoids long If-chains)
+        self.witness = witness
+        self.decompose = decompose      # env -> (n0, n1): the loop runs over range(n0*n1); generic index = k0*n1 + k1
+
+    def apply_for(self, frame, s, it):
+        from .symex import BreakSig, ContinueSig
+        from .models import SymEnumerate
+        c = cur()
+        if not hasattr(c, 'family'):
+            c.family = []
+        enum_start = None
+        if isinstance(it, SymEnumerate):
+            enum_start = it.start
+            it = it.it
+        if not isinstance(it, SRange):
+            raise Unsupported('L3 loop over non-range iterable', s)
+        n = it.length()
+        for v in active_vars():
+            if is_sym(n) and mentions(zint(n), [v.z]):
+                raise Unsupported('inner L3 trip count depends on an outer loop index', s)
+        # empty loop?  (fork: facts about the generic index need n > 0)
+        nonempty = ops_cmp('>', n, 0)
+        if nonempty is False or (nonempty is not True and not c.decide(zbool(nonempty))):
+            frame.exec_block(s.orelse)
+            return
+        if isinstance(it.step, int) and it.step == 1:
+            n = ops_binop('-', it.stop, it.start)        # n > 0 on this path, so Max(stop-start, 0) == stop-start
+        label = f'{frame.f.qualname}#{frame.loop_ordinal}'
+        if self.decompose is not None:
+            # flattened double loop: every ordinal in [0, n0*n1) is k0*n1 + k1 for exactly one (k0,k1) in the box
+            # (mixed-radix representation, the one arithmetic fact taken on trust: TRUSTED lemma MIXED-RADIX)
+            n0, n1 = self.decompose(frame.env)
+            c.require(ops_cmp('==', n, ops_binop('*', n0, n1)), f'loop{frame.loop_ordinal}.trip_count_is_product', kind='loop')
+            k0, k1 = c.fresh_int('L3k'), c.fresh_int('L3k')
+            c.assume_raw(z3.And(k0 >= 0, k0 < zint(n0), k1 >= 0, k1 < zint(n1)))
+            c.nonneg_ids.update([k0.get_id(), k1.get_id()])
+            vars_ = [LoopVar(k0, n0, label + '.0'), LoopVar(k1, n1, label + '.1')]
+            k = ops_binop('+', ops_binop('*', SInt(k0), n1), SInt(k1))
+            c.ex.__dict__.setdefault('axioms', set()).add('LEMMA-MIXED-RADIX')
+        else:
+            kz = c.fresh_int('L3k')
+            c.assume_raw(z3.And(kz >= 0, kz < zint(n)))
+            c.nonneg_ids.add(kz.get_id())
+            vars_ = [LoopVar(kz, n, label)]
+            k = SInt(kz)
+        c.counter += 1
+        fam = Family(self, vars_, c.counter, dict(frame.env), frame.f.qualname)
+        c.family.append(fam)
+        item = it.item(k)
+        if enum_start is not None:
+            item = (ops_binop('+', enum_start, k), item)
+        before = set(frame.env)
+        frame.assign(s.target, item)
+        try:
+            try:
+                frame.exec_block(s.body)
+            except ContinueSig:
+                pass
+            except BreakSig:
+                raise Unsupported('break inside an L3 loop', s)
+            except PyRaise as e:
+                # the generic iteration raises: some iteration raises -> the loop raises (first such iteration)
+                raise
+        finally:
+            c.family.pop()
+        # names assigned in the body are iteration-local: poison them
+        for name in list(frame.env):
+            if name not in before:
+                frame.env[name] = Poison(name)
+        targets = [s.target] if not hasattr(s.target, 'elts') else list(s.target.elts)
+        for t in targets:
+            for nm in _names(t):
+                frame.env[nm] = Poison(nm)
+        frame.exec_block(s.orelse)
+
+
+def _names(t):
+    import ast
+    out = []
+    for sub in ast.walk(t):
+        if isinstance(sub, ast.Name):
+            out.append(sub.id)
+    return out
+
+
+class Poison:
+    """value of a loop-local name after an L3/L2 loop: any use is outside the supported subset"""
+    def __init__(self, name):
+        self.name = name
+
+    def __repr__(self):
+        return f'<poisoned loop local {self.name}>'
+
+
+def family_guard_decide(ctx, cz):
+    """called by Ctx.decide: refuse loop-index dependent branching inside an L3 body"""
+    fam = getattr(ctx, 'family', None)
+    if not fam:
+        return
+    if mentions(cz, [v.z for f in fam for v in f.vars]):
+        raise Unsupported(f'branch on the loop index inside an independent-iterations loop ({fam[-1].fname}): {str(cz)[:120]}')
+
+
+# ---------------------------------------------------------------------------------------------
+# family stores
+
+def unique_cover_obligation(label, levels, in_region, pos):
+    """position in region(k)  =>  witness(position) == k   for every active loop index"""
+    c = cur()
+    ws = witness_for(levels, pos)
+    goal = And(*[ops_cmp('==', w, SInt(v.z)) for w, v in zip(ws, level_vars(levels))])
+    c.guards.append(in_region)
+    try:
+        c.require(goal, f'{label}.witness_is_the_writer', kind='loop', assume_after=False)
+    finally:
+        c.guards.pop()
+
+
+def family_pairs(levels, ws):
+    return [(v.z, zint(w)) for v, w in zip(level_vars(levels), ws)]
+
+
+def family_in_range(levels, ws):
+    conds = []
+    for v, w in zip(level_vars(levels), ws):
+        conds.append(And(ops_cmp('>=', w, 0), ops_cmp('<', w, v.n)))
+    return And(*conds)
+
+
+# ---------------------------------------------------------------------------------------------
+# L2: inductive invariants (used for ghost counters with a closed form)
+
+class Invariant:
+    """inv(env, k) -> list of conditions over the function's variables at the head of iteration k (ordinal).
+    havoc: names (locals) modified by the body; they are replaced by fresh values constrained only by inv.
+    The body is executed once from an arbitrary state satisfying inv(k) with 0 <= k < n; inv(k+1) is
+    required at its end and the path is cut.  A second path continues after the loop from inv(n)."""
+    always = True
+
+    def __init__(self, inv, havoc=(), fresh=None):
+        self.inv = inv
+        self.havoc = tuple(havoc)
+        self.fresh = fresh or {}
+
+    def apply_for(self, frame, s, it):
+        from .symex import BreakSig, ContinueSig
+        from .smt import CutPath
+        c = cur()
+        seq = None
+        if isinstance(it, SRange):
+            n = it.length()
+            item = it.item
+        else:
+            seq = frame.I.stdlib.concrete_iter(frame.I, it)
+            if seq is None:
+                raise Unsupported('L2 loop over unsupported iterable', s)
+            n = len(seq)
+            raise Unsupported('L2 over concrete sequences is not needed (unrolled)', s)
+        label = f'loop{frame.loop_ordinal}'
+        # initiation
+        for i, cond in enumerate(self.inv(frame.env, 0, 'init')):
+            c.require(cond, f'{label}.inv_init[{i}]', kind='loop')
+        which = c.choose(2, 'loop: step / exit')
+        # havoc loop-modified state
+        for nm in self.havoc:
+            mk = self.fresh.get(nm)
+            frame.env[nm] = mk(c, nm) if mk else c.sym_int(nm)
+        if which == 0:
+            kz = c.fresh_int('L2k')
+            c.assume_raw(z3.And(kz >= 0, kz < zint(n)))
+            k = SInt(kz)
+            c.assume(self.inv(frame.env, k, 'assume'))
+            frame.assign(s.target, item(k))
+            try:
+                frame.exec_block(s.body)
+            except ContinueSig:
+                pass
+            except BreakSig:
+                raise Unsupported('break inside an L2 loop', s)
+            for i, cond in enumerate(self.inv(frame.env, ops_binop('+', k, 1), 'step')):
+                c.require(cond, f'{label}.inv_step[{i}]', kind='loop')
+            raise CutPath()
+        else:
+            nn = V.Max(n, 0)
+            c.assume(self.inv(frame.env, nn, 'exit'))
+            frame.exec_block(s.orelse)
